@@ -1,13 +1,14 @@
 #!/bin/bash
 # Build the Coq development from files on disk only (full .vo build, no -vos), then scan for forbidden constructs.
-set -e
+set -e -o pipefail
 cd /verif/coq
 mkdir -p /verif/build /verif/evidence /verif/replays
 export PYTHONPATH=/repo/src:/verif/py PYTHONHASHSEED=0 PYTHONWARNINGS=ignore PYTHONDONTWRITEBYTECODE=1
 # regenerate translated definitions from /repo's current source (fail-closed translator)
 if [ -f /verif/py/py2v.py ]; then /venv/bin/python /verif/py/py2v.py || echo "translator reported errors (checks will report them)"; fi
+/venv/bin/python /verif/py/mkcoqproject.py
 coq_makefile -f _CoqProject -o Makefile
-timeout 3000 make -j16 2>&1 | tail -40
+timeout 3000 make -k -j16 2>&1 | tail -40; test ${PIPESTATUS[0]} -eq 0 || { echo "coq build reported errors (the affected checks will report them)"; }
 if grep -rnE '\b(Admitted|admit|Axiom|Parameter|Conjecture|Unset Guard Checking|bypass_check|Admit Obligations)\b' --include=*.v . | grep -v '(\*.*\*)' ; then
   echo "forbidden construct found"; exit 1; fi
 echo "setup ok"
